@@ -1,6 +1,7 @@
 FILE = "asn1tools/codecs/ber.py"
 
-fields("asn1tools/codecs/__init__.py", "ErrorWithLocation", message=Val, location=Val)
+fields("asn1tools/codecs/__init__.py", "ErrorWithLocation", message=Val, location=IdList)
+mutable("asn1tools/codecs/__init__.py::ErrorWithLocation", "location")
 fields("asn1tools/codecs/__init__.py", "DecodeError", offset=Val)
 fields("MissingDataError", expected_length=Int, offset=Int)
 
